@@ -1,17 +1,22 @@
 #!/bin/bash
-# tools/seedregress.sh [tier] : runs every archived seeded change against the check of its property; lists the ones not caught.
+# tools/seedregress.sh [tier] [jobs] : runs every archived seeded change against the check of its property; lists the ones not caught.
 cd "$(dirname "$0")/.."
-tier="${1:-quick}"; missed=0
-for d in seeded/*/; do
+tier="${1:-quick}"; jobs="${2:-3}"
+one() {
+  d="$1"; tier="$2"
   pid=$(basename "$d" | cut -d- -f1)
-  if grep -q '"caught_by": "neutralised by fix' "$d/meta.json"; then echo "skip   $(basename $d) (an a816 fix: commit made this change harmless)"; continue; fi
-  if grep -q '"caught_by": "not caught, by design' "$d/meta.json"; then echo "skip   $(basename $d) (not a violation under the recorded interpretation, DESIGN 7.3)"; continue; fi
+  if grep -q '"caught_by": "neutralised by fix' "$d/meta.json"; then echo "skip   $(basename $d) (an a816 fix: commit made this change harmless)"; return; fi
+  if grep -q '"caught_by": "not caught, by design' "$d/meta.json"; then echo "skip   $(basename $d) (not a violation under the recorded interpretation, DESIGN 7.3)"; return; fi
   # the check that is recorded as catching it (the property's own check unless the row names another one first)
   by=$(grep -o '"caught_by": "C[0-9][0-9]' "$d/meta.json" | grep -o 'C[0-9][0-9]$'); [ -n "$by" ] && pid="$by"
   full=$(tools/seedtest.sh "$d" "$pid" "$tier" | head -3)
   out=$(echo "$full" | head -1)
   n=$(echo "$full" | grep -o "([0-9]* case(s))" | head -1 | tr -dc 0-9)
-  if echo "$out" | grep -q "check_exit=1"; then echo "ok     $(basename $d) cases=${n:-?}"; else echo "MISSED $(basename $d): $out"; missed=$((missed+1)); fi
-done
+  if echo "$out" | grep -q "check_exit=1"; then echo "ok     $(basename $d) cases=${n:-?}"; else echo "MISSED $(basename $d): $out"; fi
+}
+export -f one
+out=$(ls -d seeded/*/ | xargs -P "$jobs" -I{} bash -c 'one {} '"$tier")
+echo "$out" | sort -k2
+missed=$(echo "$out" | grep -c "^MISSED")
 echo "missed=$missed"
 exit $missed
